@@ -9,8 +9,10 @@ C12 — line-protocol driver of the model (core only). One op per line, payloads
   qs/qi <hex>   QuoteString / QuoteIdent     inq <hex>  IdentNeedsQuotes
   fd <int>      FormatDuration               pd <hex>   ParseDuration
   codec …       → `ok` (Marshal→Unmarshal equality is decided by the harness; the spec is "equal")
+  opts … / wiredesc <Msg>   the options codec model (WireDriver.lean)
 -/
 import OG.C12.Good
+import OG.C12.WireDriver
 
 namespace OG.C12
 open OG.Gen.C12
@@ -170,6 +172,12 @@ def exprAnswer (text : Str) : String :=
           else incons ++ " | MODEL-INCONSISTENT DursInRange fails"
         "t1 " ++ dump e ++ " | pr " ++ pr ++ " | t2 " ++ t2 ++ incons
 
+/-- the condition a statement text `… WHERE <text>` is planned as -/
+def condOf (text : Str) : Option Expr :=
+  match yaccLex (normInput text) with
+  | none => none
+  | some toks => yaccParse toks
+
 def step (line : String) : String :=
   match (line.trimAscii.toString.splitOn " ").filter (· ≠ "") with
   | ["expr", h] =>
@@ -179,6 +187,9 @@ def step (line : String) : String :=
   | ["expr"] => exprAnswer []
   | "xexpr" :: _ => "skip"
   | "codec" :: _ => "ok"
+  | "opts" :: args => Wire.optsAnswer dump condOf args
+  | ["wiredesc", m] => Wire.wiredescAnswer m
+  | ["judged", f] => Wire.judgedAnswer f
   | ["lex", h] =>
     match unhex h with
     | some text =>
